@@ -36,7 +36,10 @@ def handleSync (j : Json) : Except String Json := do
   let kind ← jnat j "fileKind"
   let sysOk ← jbool j "sysOk"
   let evs ← (← jarr j "evs").mapM evOfJson
-  let s0 := init fixed n kind sysOk
+  let gate := match j.getObjVal? "gate" with
+    | .ok (Json.str g) => g
+    | _ => ""
+  let s0 := if gate == "rebuild0" && !sysOk && kind < 2 then initRebuildGate fixed n kind else init fixed n kind sysOk
   let (_, states) := evs.foldl (fun (acc : St × List St) e => let s' := step fixed acc.1 e; (s', acc.2 ++ [s'])) (s0, [s0])
   pure (Json.mkObj [("states", Json.arr (states.map ofSt).toArray)])
 
